@@ -2,7 +2,7 @@
    [gs false] is the SPECIFICATION (east = tas sin h, north = tas cos h, h degrees clockwise from
    north, wind = (eastward, northward)); [gs true] is weather.py:get_ground_speed AS CODED (F14).
    Real-number semantics of the model text (lib/Num.v, RNum). *)
-From Coq Require Import ZArith Reals List Bool.
+From Coq Require Import ZArith Reals List Bool Lra.
 From AV Require Import lib.Num model.C16_Model proofs.C16_Proofs.
 Import ListNotations.
 Local Open Scope R_scope.
@@ -70,6 +70,41 @@ Theorem C16_uniform_field_query :
     @ground_speed RNum b sc slice alt lat lon tas h = @GsOk RNum x -> x = @gs RNum b tas h cu cv.
 Proof. exact uniform_field_pipeline. Qed.
 Print Assumptions C16_uniform_field_query.
+
+(* ---------------- whole queries on arbitrary (spatially varying) fields ---------------- *)
+
+(* an answered query IS the vector formula at the interpolated wind (so every clause above applies to it) *)
+Theorem C16_answered_query_is_vector_sum_at_interpolated_wind :
+  forall b (sc : scene RNum) slice (alt lat lon tas h x : R),
+    @ground_speed RNum b sc slice alt lat lon tas h = @GsOk RNum x ->
+    exists u v, @wind RNum sc slice alt lat lon = Some (u, v) /\ x = @gs RNum b tas h u v.
+Proof. exact ground_speed_unfold. Qed.
+Print Assumptions C16_answered_query_is_vector_sum_at_interpolated_wind.
+
+(* what "interpolated" means for a varying field: each interpolated component lies within the range of the grid values
+   (convex-hull bound of the nested linear interpolation; together with C16_uniform_field_query: exact on uniform fields) *)
+Theorem C16_interpolated_wind_within_grid_values :
+  forall ps las los tb (p la lo_ lo hi w : R),
+    (forall i j k y, @node RNum tb i j k = Some y -> lo <= y <= hi) ->
+    @interp3 RNum ps las los tb p la lo_ = Some w -> lo <= w <= hi.
+Proof. exact interp3_between. Qed.
+Print Assumptions C16_interpolated_wind_within_grid_values.
+
+(* liveness: a query below 25 km whose pressure level, latitude and longitude lie inside their (closed) axis ranges, on
+   rectangular tables, IS answered *)
+Theorem C16_inside_domain_answered :
+  forall b (sc : scene RNum) slice (alt lat lon tas h : R) tu tv,
+    alt <= 25000 ->
+    nth_error (sc_u sc) slice = Some tu -> nth_error (sc_v sc) slice = Some tv ->
+    rect tu (length (sc_levels sc)) (length (sc_lats sc)) (length (sc_lons sc)) ->
+    rect tv (length (sc_levels sc)) (length (sc_lats sc)) (length (sc_lons sc)) ->
+    inside (sc_levels sc) (@level RNum alt) -> inside (sc_lats sc) lat -> inside (sc_lons sc) lon ->
+    exists x, @ground_speed RNum b sc slice alt lat lon tas h = @GsOk RNum x.
+Proof. exact ground_speed_live. Qed.
+Print Assumptions C16_inside_domain_answered.
+
+Example C16_inside_nonvacuous : inside [225; 400; 700; 1000] 500 /\ inside [40; 41] 41.
+Proof. split; simpl; (split; [discriminate|lra]). Qed.
 
 (* ---------------- the code as it stands (F14) ---------------- *)
 
